@@ -222,8 +222,8 @@ def hasExplicitEmpty (dflt : Int) : (d : Nat) → TY d → Bool
 def handleYaml (j : Json) : Except String Verdict := do
   let kind ← fStr j "kind"
   let isTensor := kind == "tensor"
-  let dflt ← pVal (← field j "dflt")
   let orig ← field j "orig"
+  let dflt ← pVal (← field orig "dflt")
   let d ← fNat orig "depth"
   let o ← parseLoaded d orig
   let impl ← field j "impl"
